@@ -14,7 +14,7 @@ import (
 )
 
 func init() {
-	for _, prop := range []string{"C01", "C03", "C06", "C07", "C09", "C13", "C14", "C15"} {
+	for _, prop := range []string{"C01", "C03", "C06", "C07", "C09", "C12", "C13", "C14", "C15"} {
 		prop := prop
 		vk.Register(prop+".live", func(p vbase.Params, r *vbase.Result) { liveCampaign(prop, p, r) })
 	}
@@ -59,13 +59,13 @@ func liveCampaign(prop string, p vbase.Params, r *vbase.Result) {
 		"driven by 2..4 real gorums clients sending 15..40 commands each (then resubmitting executed ones); configurations: ruleset x scheme x leader rotation (round-robin, fixed, carousel, reputation) x batch 1..4 x " +
 		"{no fault, one replica stopped mid-run, one replica with the repository's fork / silentproposer / increaseview rules}; monitors on the replicas' own event loops and at the client boundary, stamped by one atomic counter: " +
 		"commit sequences hash-linked and prefix-related (C01); offline pass over the sign log of every honest key: vote views strictly increasing, no vote at or below a signed timeout, designated leader for the stateless rotations, parent = certified block (C03); view / high QC / high TC / committed view never decrease, view changes signalled in order (C07); commands handed to execution = commands of the committed blocks in order, " +
-		"every QC in an honest proposal names >= q replicas that really signed the certified block (C09); CmdCount and state digest = the committed ledger executed exactly once, success replies only after the execution event, never twice for one command, equal counts => equal digests (C06); " +
+		"with no Byzantine replica, every replica receives the same block (hash) as the proposal of a view, directly or relayed through the tree (C12); every QC in an honest proposal names >= q replicas that really signed the certified block (C09); CmdCount and state digest = the committed ledger executed exactly once, success replies only after the execution event, never twice for one command, equal counts => equal digests (C06); " +
 		"data races attributed by the property's anchor files; wall-clock only bounds a run; non-trivial: >= 2 honest replicas committed; distinct: configuration and outcome"
 	n := p.N(8, 160)
 	for i := 0; i < n; i++ {
 		rng := vbase.NewRng(p.Seed, "live", prop, p.Shard, p.NShards, i)
 		o := GenOpts(rng)
-		if prop == "C09" && i%2 == 0 && !o.Kauri {
+		if (prop == "C09" || prop == "C12") && i%2 == 0 && !o.Kauri {
 			o.Kauri, o.N, o.Leader, o.Crash, o.Byz = true, 7, leaderrotation.NameTree, 0, map[hotstuff.ID]string{}
 		}
 		o.Label = fmt.Sprintf("%s/%d", prop, i)
